@@ -410,9 +410,9 @@ func (c *c18) wireCase(w *core.Worker, idx int, rng *core.Rng, res *core.CaseRes
 		step := run.genStep(2)
 		res.Tracef("step %d: %s", s, stepString(step))
 		type plan struct{ op, style string }
-		plans := []plan{{editOp, "error"}, {editOp, "error-prefixed"}}
+		plans := []plan{{editOp, "error"}, {editOp, "error-prefixed"}, {editOp, "warning+error"}, {editOp, "error+warning"}}
 		if commitDS == "candidate" {
-			plans = append(plans, plan{"commit", "error"}, plan{"commit", "error-prefixed"})
+			plans = append(plans, plan{"commit", "error"}, plan{"commit", "error-prefixed"}, plan{"commit", "warning+error"}, plan{"commit", "error+warning"})
 		}
 		for _, p := range plans {
 			if len(res.Findings) > 0 {
